@@ -1,5 +1,6 @@
 import OjgVerif.Sen.Machine
 import OjgVerif.Gen.Sen
+import OjgVerif.Gen.SenFacts
 /-! # The regenerated mode tables of `sen/maps.go` as `Tables`, and the readable reference
 `expected` they are compared with (`TablesOK`). -/
 namespace OjgVerif.Sen
@@ -79,11 +80,22 @@ def senTbl : Mode → Array UInt8
   | .space => Sen.spaceMap | .commentStart => Sen.commentStartMap | .comment => Sen.commentMap
   | .ccomment => Sen.ccommentMap | .ccommentEnd => Sen.ccommentEndMap
 
-/-- the machine over the regenerated `sen/maps.go` -/
+/-- the one bound the extractor found (0 = none or several: the source has a shape the model does not know) -/
+def theBound : List Nat → Nat
+  | [n] => n
+  | _ => 0
+
+/-- the machine over the regenerated `sen/maps.go` and the regenerated length tests of the BOM handling -/
 def senTables : Tables where
   act m b := decode ((senTbl m).getD b.toNat 0)
   fin m := decodeFin (senTbl m)
   escByte b := OjgVerif.Gen.Sen.escByteMap.getD b.toNat 0
+  bomP := { readerLoop := theBound OjgVerif.Gen.SenFacts.parserReaderBomLoop,
+            readerDetect := theBound OjgVerif.Gen.SenFacts.parserReaderBomDetect,
+            bytesDetect := theBound OjgVerif.Gen.SenFacts.parserParseBomDetect }
+  bomT := { readerLoop := theBound OjgVerif.Gen.SenFacts.tokLoadBomLoop,
+            readerDetect := theBound OjgVerif.Gen.SenFacts.tokLoadBomDetect,
+            bytesDetect := theBound OjgVerif.Gen.SenFacts.tokParseBomDetect }
 
 /-! ## The reference: transitions as byte predicates (no tables) -/
 
@@ -214,6 +226,9 @@ structure TablesOK (T : Tables) : Prop where
   act : ∀ m b, T.act m b = expected m b
   fin : ∀ m, T.fin m = expectedFin m
   esc : ∀ b, expected .esc b = .escOk → T.escByte b = unesc b
+  /-- the length tests of the BOM handling are 4 (read loop) and 3 (detection) for both front-ends -/
+  bomP : T.bomP = {}
+  bomT : T.bomT = {}
 
 /-- cells where a table set differs from the reference (diagnostics for the runner) -/
 def tableDiffs (T : Tables) : List (Mode × Nat × Act × Act) :=
